@@ -238,10 +238,21 @@ def has_expr(op, kind):
 
 def steps_of(item):
     """The program an item stands for, as a list of single operations."""
-    op = item["op"]
+    def flat(o):
+        return flat(o["first"]) + flat(o["second"]) if o["op"] == "seq" else [o]
     if "prog" in item:
-        return item["prog"]["steps"][:item["upto"]]
-    return [op["first"], op["second"]] if op["op"] == "seq" else [op]
+        return [s for o in item["prog"]["steps"][:item["upto"]] for s in flat(o)]
+    return flat(item["op"])
+
+
+def reassigned_column(steps):
+    """The last step assigns a column that an EARLIER assign step created, with the creation of another new column
+    in between (assign(c=..) ... assign(d=..) ... assign(c=..)): the optimizer squashes the assignments."""
+    last = steps[-1]
+    if last["op"] != "assign":
+        return False
+    created = [s["name"] for s in steps[:-1] if s["op"] == "assign"]
+    return last["name"] in created and any(n != last["name"] for n in created[created.index(last["name"]) + 1:])
 
 
 def op_tag(op):
@@ -286,6 +297,8 @@ def classify(item, clauses):
         if dup_labels(src_idx) and any(o["op"] in ("filter", "sfilter") and any(has_expr(later, "idxs") for later in steps[i + 1:])
                                        for i, o in enumerate(steps[:-1])):
             return "pipeline:filter-then-index-series:duplicate-labels:%s" % group
+        if group == "structure" and reassigned_column(steps):
+            return "pipeline:assign-reassigned-column:structure"
         extra = []
         if k == "loc":
             extra.append("full-slice" if op["a"] == NA and op["b"] == NA else
@@ -658,13 +671,13 @@ def run(ctx):
     nlay = sum(len(v) for v in enum["layouts"].values())
     ctx.extra["cases_enumerated_by_tlc"] = {"operations_on_sources": len(enum["ops"]), "layout_dependent": len(enum["lops"]),
                                             "layouts": nlay, "aligned": len(enum["aligned"])}
-    items = make_items(ctx, tables, enum, per_pair=ctx.pick(3, 16), n_lops=ctx.pick(500, 6000), per_apair=ctx.pick(8, 80))
+    items = make_items(ctx, tables, enum, per_pair=ctx.pick(2, 16), n_lops=ctx.pick(350, 6000), per_apair=ctx.pick(6, 80))
     pool = Pool()
     _, recs, skips, guards = check_items(ctx, items, "", pool, decide=False)
     if guards:
         raise MachineryError("the TLA+ reference disagrees with pandas on %d cases, e.g. %s: %s"
                              % (len(guards), json.dumps(guards[0][0]["op"]), guards[0][1][:600]))
-    progs = [gen_program(ctx.rng, i) for i in range(ctx.pick(260, 3000))]
+    progs = [gen_program(ctx.rng, i) for i in range(ctx.pick(220, 3000))]
     nsteps = 0
     for prog_recs in pmap(run_program, progs, chunk=8):
         for rec, item in prog_recs:
